@@ -157,13 +157,20 @@ def _same(a: Any, b: Any) -> bool:
 
 def _segment(args) -> List[Dict[str, Any]]:
     """ops of one process (between newproc boundaries) on the local store in `root`."""
-    (root, ops, vi) = args
+    (root, ops, vi) = args[:3]
+    two = len(args) > 3 and args[3]
     import dds
     import dds.codec as dc
     import dds._api as api
     dc._registry = None          # a fresh process starts from the default registry
     dds.set_store("local", internal_dir=os.path.join(root, "internal"), data_dir=os.path.join(root, "data"))
     st = api._store()
+    handles = [st]
+    if two:
+        # a second live store object over the same directories; the operations alternate between the two
+        from dds.store import LocalFileStore
+        handles.append(LocalFileStore(os.path.join(root, "internal"), os.path.join(root, "data")))
+    nop = [0]
     user = _make_user_codecs()
     vals = value_sets()
     from . import storedrv
@@ -171,6 +178,9 @@ def _segment(args) -> List[Dict[str, Any]]:
     for op in ops:
         del LOG[:]
         o: Dict[str, Any] = {}
+        if op["op"] in ("store", "fetch"):
+            nop[0] += 1
+            st = handles[nop[0] % len(handles)]
         try:
             common.arm(60)
             if op["op"] == "register":
@@ -214,7 +224,8 @@ def _segment(args) -> List[Dict[str, Any]]:
 
 
 def _replay(a) -> Dict[str, Any]:
-    (idx, hist, vi, base) = a
+    (idx, hist, vi, base) = a[:4]
+    two = len(a) > 4 and a[4]
     root = os.path.join(base, "c%d" % idx)
     os.makedirs(root)
     segs: List[List[Dict[str, Any]]] = [[]]
@@ -235,7 +246,7 @@ def _replay(a) -> Dict[str, Any]:
             if pid == 0:
                 try:
                     os.close(r)
-                    res = _segment((root, seg, vi))
+                    res = _segment((root, seg, vi, two))
                     with os.fdopen(w, "wb") as f:
                         f.write(json.dumps(res).encode())
                 finally:
@@ -268,13 +279,14 @@ def run_c17(tier: str) -> int:
         raise MachineryError("StoreCodec simulation failed:\n" + rs.tail(20))
     hs = rs.printed("HIST")
     base = common.sub_scratch("codec")
-    tasks = [(i, h, i % 3, base) for (i, h) in enumerate(hs)]
+    # every fourth behaviour runs over two live store objects per process (operations alternate)
+    tasks = [(i, h, i % 3, base, i % 4 == 3) for (i, h) in enumerate(hs)]
     with multiprocessing.get_context("fork").Pool(common.NCPU) as pool:
         outs = pool.map(_replay, tasks, chunksize=4)
     n = 0
     nontriv = set()
     for (t, out) in zip(tasks, outs):
-        (_, h, vi, _) = t
+        (_, h, vi, _, two_) = t
         if out["fatal"]:
             raise MachineryError("C17 replay: " + out["fatal"])
         n += 1
@@ -282,16 +294,16 @@ def run_c17(tier: str) -> int:
             nontriv.add(json.dumps([[o["op"], o["arg"]] for o in h]) + str(vi))
         for (j, (o, a)) in enumerate(zip(h, out["answers"])):
             exp = o["ans"]
-            ctx = "after-newproc" if any(x["op"] == "newproc" for x in h[:j]) else "same-process"
+            ctx = ("after-newproc" if any(x["op"] == "newproc" for x in h[:j]) else "same-process") + (",two-live-stores" if two_ else "")
             if a["ans"] != exp:
                 rep.violation("C17|%s|%s|expected=%s|got=%s|%s" % (o["op"], KEYS.get(o["arg"], o["arg"]), "/".join(exp), "/".join(str(x) for x in a["ans"][:2]), ctx),
-                              {"ops": h[: j + 1], "expected": exp, "observed": a, "value_index": vi})
+                              {"ops": h[: j + 1], "expected": exp, "observed": a, "value_index": vi, "two_live_stores": two_})
                 break
             if o["op"] == "fetch" and exp[0] == "reader" and not a.get("equal"):
-                rep.violation("C17|fetch-not-equal|%s|reader=%s" % (KEYS[o["arg"]], exp[1]), {"ops": h[: j + 1], "observed": a, "value_index": vi})
+                rep.violation("C17|fetch-not-equal|%s|reader=%s" % (KEYS[o["arg"]], exp[1]), {"ops": h[: j + 1], "observed": a, "value_index": vi, "two_live_stores": two_})
                 break
             if o["op"] == "store" and exp[1] in ("local.string", "local.bytes") and a.get("verbatim") is not True:
-                rep.violation("C17|not-verbatim|%s" % KEYS[o["arg"]], {"ops": h[: j + 1], "observed": a, "value_index": vi})
+                rep.violation("C17|not-verbatim|%s" % KEYS[o["arg"]], {"ops": h[: j + 1], "observed": a, "value_index": vi, "two_live_stores": two_})
                 break
         else:
             rep.add_sample({"ops": [[o["op"], o["arg"], o["ans"]] for o in h], "value_index": vi})
@@ -352,7 +364,7 @@ def replay_file(prop: str, path: str) -> int:
     if "ops" not in d:
         print(json.dumps(d)[:1000])
         return 1
-    out = _replay((0, d["ops"], d.get("value_index", 0), common.sub_scratch("replay17")))
+    out = _replay((0, d["ops"], d.get("value_index", 0), common.sub_scratch("replay17"), bool(d.get("two_live_stores"))))
     bad = 0
     for (o, a) in zip(d["ops"], out.get("answers", [])):
         flag = "" if a["ans"] == o["ans"] and a.get("equal", True) else "  <-- differs"
